@@ -33,6 +33,8 @@ type vfC03rateSUT struct {
 	va    *v.Variant
 	l     *Limiter
 	npIdx []int // model index -> index in l.NetworkPrefixLimits after init's sort
+	lv4   []int // model level -> index of the heap with that prefix length (identity while init sorts longest-first)
+	lv6   []int
 }
 
 func vfC03rateLimit(cf *v.Conf, rate, burst int, tick time.Duration, salt int) Limit {
@@ -79,14 +81,24 @@ func (s *vfC03rateSUT) index() error {
 			return fmt.Errorf("prefix %v not found after init", s.va.NP[i])
 		}
 	}
-	for i, sl := range s.l.SubnetRateLimiter.IPv4SubnetLimits {
-		if sl.PrefixLength != s.va.V4Len[i] {
-			return fmt.Errorf("v4 levels after init: %v, model order %v", s.l.SubnetRateLimiter.IPv4SubnetLimits, s.va.V4Len)
+	find := func(lims []SubnetLimit, n int) (int, error) {
+		for j, sl := range lims {
+			if sl.PrefixLength == n {
+				return j, nil
+			}
+		}
+		return 0, fmt.Errorf("no subnet level /%d after init", n)
+	}
+	s.lv4, s.lv6 = make([]int, len(s.va.V4Len)), make([]int, len(s.va.V6Len))
+	var err error
+	for i, n := range s.va.V4Len {
+		if s.lv4[i], err = find(s.l.SubnetRateLimiter.IPv4SubnetLimits, n); err != nil {
+			return err
 		}
 	}
-	for i, sl := range s.l.SubnetRateLimiter.IPv6SubnetLimits {
-		if sl.PrefixLength != s.va.V6Len[i] {
-			return fmt.Errorf("v6 levels after init: %v, model order %v", s.l.SubnetRateLimiter.IPv6SubnetLimits, s.va.V6Len)
+	for i, n := range s.va.V6Len {
+		if s.lv6[i], err = find(s.l.SubnetRateLimiter.IPv6SubnetLimits, n); err != nil {
+			return err
 		}
 	}
 	return nil
@@ -150,15 +162,17 @@ func (s *vfC03rateSUT) project(now time.Time) (*vfC03rateSt, string) {
 		st.Bk[bid] = []int{}
 	}
 	for bid, loc := range s.locs() {
-		hs := s.l.SubnetRateLimiter.ipv4Heaps
-		lv := s.cf.V4
+		hs, lv, hi := s.l.SubnetRateLimiter.ipv4Heaps, s.cf.V4, s.lv4
 		if loc.fam == "v6" {
-			hs, lv = s.l.SubnetRateLimiter.ipv6Heaps, s.cf.V6
+			hs, lv, hi = s.l.SubnetRateLimiter.ipv6Heaps, s.cf.V6, s.lv6
 		}
-		h := hs[loc.lvl]
+		h := hs[hi[loc.lvl]]
 		idx, ok := h.prefixToIndex[loc.prefix]
 		if !ok {
 			continue
+		}
+		if idx < 0 || idx >= len(h.prefixBucket) || h.prefixBucket[idx].Prefix != loc.prefix {
+			continue // dangling or crossed index entry: reported with the heap's structure below, the bucket counts as not held
 		}
 		b := h.prefixBucket[idx]
 		ttl := 0
@@ -240,6 +254,13 @@ func vfC03rateMaddr(a netip.Addr, salt int) ma.Multiaddr {
 
 // ---------------------------------------------------------------------------------------------
 
+// a panic of the limiter under a valid call is an observable failure, not a harness problem
+func vfC03rateGuard(f func()) (p any) {
+	defer func() { p = recover() }()
+	f()
+	return nil
+}
+
 func vfC03rateOpStr(op vfh.Op) string {
 	if op.Name() == "Tick" {
 		return "Tick"
@@ -291,7 +312,11 @@ func vfC03rateWalk(cf *v.Conf, va *v.Variant, res *vfh.Result, file string, wi i
 			if m := vfC03rateMaddr(ca, wi+si); viaLimit && m != nil {
 				st := &vfC03rateStream{conn: &vfC03rateConn{remote: m, local: local}}
 				before := handled
-				wrapped(st)
+				if p := vfC03rateGuard(func() { wrapped(st) }); p != nil {
+					run.mism("rate-limiter-panic", fmt.Sprintf("[%s %s] Limit(handler) on a stream from %s panics: %v", cf.Inst, va.Name, m, p), si, nil, fmt.Sprint(p))
+					res.Count(1, 1)
+					return nil
+				}
 				got = handled == before+1
 				okReset := len(st.resets) == 1 && st.resets[0] == network.StreamRateLimited && st.plain == 0
 				if (got && (len(st.resets) != 0 || st.plain != 0)) || (!got && !okReset) || handled > before+1 {
@@ -299,8 +324,10 @@ func vfC03rateWalk(cf *v.Conf, va *v.Variant, res *vfh.Result, file string, wi i
 						si, "handler XOR exactly one ResetWithError(StreamRateLimited)", nil)
 				}
 				res.Inc("via_limit_wrapper", 1)
-			} else {
-				got = sut.l.Allow(ca)
+			} else if p := vfC03rateGuard(func() { got = sut.l.Allow(ca) }); p != nil {
+				run.mism("rate-limiter-panic", fmt.Sprintf("[%s %s] Allow(%s=%v) panics: %v", cf.Inst, va.Name, a, ca, p), si, nil, fmt.Sprint(p))
+				res.Count(1, 1)
+				return nil
 			}
 			fs := orc.Observe(a, got)
 			l1 := false
@@ -329,6 +356,10 @@ func vfC03rateWalk(cf *v.Conf, va *v.Variant, res *vfh.Result, file string, wi i
 						run.mism("rate-bucket-forgotten-before-full", fmt.Sprintf("[%s %s] subnet bucket %s was dropped %v before it is full again (R6): the next requests of that subnet get a fresh burst",
 							cf.Inst, va.Name, bid, time.Duration(orc.Sub[bid].Def)), si, true, false)
 						orc.Desync = true
+					}
+					if orc.InGrace(bid) && !st.pres(bid) {
+						run.mism("rate-bucket-dropped-within-grace", fmt.Sprintf("[%s %s] subnet bucket %s is full again but its grace period (%v) has %v to go, and it is already dropped (R6)",
+							cf.Inst, va.Name, bid, time.Duration(cf.Grace)*va.Tick, time.Duration(orc.Sub[bid].ExpAt-orc.Now)), si, true, false)
 					}
 				}
 			}
@@ -363,6 +394,33 @@ func vfC03rateWalk(cf *v.Conf, va *v.Variant, res *vfh.Result, file string, wi i
 			}
 		}
 		res.Count(0, 1)
+	}
+	// R8: after a long rest every address is served as by a new limiter, and only the probed subnets are remembered
+	if !orc.Desync {
+		rest := 64 * va.Tick
+		time.Sleep(rest)
+		orc.Advance(rest)
+		for _, a := range cf.Addrs() {
+			var got bool
+			if p := vfC03rateGuard(func() { got = sut.l.Allow(va.Addr[a]) }); p != nil {
+				run.mism("rate-limiter-panic", fmt.Sprintf("[%s %s] Allow(%s=%v) after a rest panics: %v", cf.Inst, va.Name, a, va.Addr[a], p), len(w.Steps), nil, fmt.Sprint(p))
+				break
+			}
+			run.prefix = append(run.prefix, fmt.Sprintf("Rest+Allow(%s)", a))
+			for _, f := range orc.Observe(a, got) {
+				run.mism(f.Class, fmt.Sprintf("[%s %s] after a rest of %v: %s", cf.Inst, va.Name, rest, f.What), len(w.Steps), nil, got)
+			}
+			if orc.ReachesSubnet(a) && !orc.Desync {
+				st, _ := sut.project(time.Now())
+				for bid := range sut.locs() {
+					if orc.MustBeGone(bid) && st.pres(bid) {
+						run.mism("rate-idle-bucket-retained", fmt.Sprintf("[%s %s] subnet bucket %s is still held %v after it was full and its grace period over (R6)",
+							cf.Inst, va.Name, bid, time.Duration(orc.Now-orc.Sub[bid].ExpAt)), len(w.Steps), false, true)
+					}
+				}
+			}
+		}
+		res.Inc("rest_probes", len(cf.Addrs()))
 	}
 	res.Count(1, 0)
 	return nil
@@ -462,6 +520,7 @@ func vfC03rateConcOne(cf *v.Conf, va *v.Variant, res *vfh.Result, rnd *rand.Rand
 			batch[i] = names[rnd.Intn(len(names))]
 		}
 		got := make([]bool, k)
+		var pan [8]any
 		start := make(chan struct{})
 		var wg sync.WaitGroup
 		for i := range batch {
@@ -469,12 +528,19 @@ func vfC03rateConcOne(cf *v.Conf, va *v.Variant, res *vfh.Result, rnd *rand.Rand
 			go func() {
 				defer wg.Done()
 				<-start
-				got[i] = sut.l.Allow(va.Addr[batch[i]])
+				pan[i] = vfC03rateGuard(func() { got[i] = sut.l.Allow(va.Addr[batch[i]]) })
 			}()
 		}
 		synctest.Wait()
 		close(start)
 		wg.Wait()
+		for i := range batch {
+			if pan[i] != nil {
+				res.AddMismatch(vfh.Mismatch{Class: "rate-limiter-panic", What: fmt.Sprintf("[%s %s] concurrent Allow(%s) panics: %v", cf.Inst, va.Name, batch[i], pan[i]),
+					Walk: -1, Step: r, Prefix: append([]string(nil), hist...)})
+				return nil
+			}
+		}
 		hist = append(hist, fmt.Sprintf("%v=%v", batch, got))
 		if len(hist) > 12 {
 			hist = hist[1:]
